@@ -188,8 +188,8 @@ theorem C11_seq_no_offenders (pol : Policy) (p : Parser α) (xs : List α)
     have ih' := fun i => ih (fun z hz => h z (by simp [hz])) i
     simp [parseSeqFrom, hy, ih']
 
-/-- the policy never turns a failure-free parse into something else: any policy agrees with `exclude`
-and `preserve` on the elements that are not offending (they are the `filterMap` / `getD` images). -/
+/-- the `exclude` result is the element-wise conversion of the non-offending elements, one result per
+non-offending element (nothing else is dropped, nothing is added). -/
 theorem C11_seq_exclude_sublist (p : Parser α) (xs : List α) :
     ∃ rs, parseSeq .exclude p xs = .ok rs ∧ rs = (removeOffenders p xs).filterMap p ∧
       rs.length = (removeOffenders p xs).length := by
@@ -663,9 +663,10 @@ theorem C11_field_ok_any_policy (inv : Policy) (f : Field κ α) (x y : α) (h :
     parseValue inv f x = .value y := by
   simp [parseValue, h]
 
-/-- an offending value is: dropped in favour of the default (`exclude`, optional field), handed back
-unchanged (`preserve`), or an error (`throw`, or `exclude` on a required field) — nothing else. -/
-theorem C11_field_offending_cases (inv : Policy) (f : Field κ α) (x : α) (hbad : Offending f.parse x = true) :
+/-- unfolding lemma (the body of `parseValue` for an offending value; restates the model, used as a rewrite
+rule): dropped in favour of the default (`exclude`, optional field), handed back unchanged (`preserve`), or
+an error (`throw`, or `exclude` on a required field). -/
+theorem C11_field_cases_restates_model (inv : Policy) (f : Field κ α) (x : α) (hbad : Offending f.parse x = true) :
     parseValue inv f x =
       match f.policy inv with
       | .exclude => if f.required then .raise else (match f.default with | some d => .value d | none => .unprovided)
@@ -841,7 +842,7 @@ theorem parseValue_strictified_kept (inv : Policy) (f : Field κ α) (x : α)
   | some y => simp [strictifyParser_ok _ _ _ _ hp, parseValue, hp]
   | none =>
     have hb : Offending f.parse x = true := by simp [Offending, hp]
-    rw [C11_field_offending_cases inv f x hb]
+    rw [C11_field_cases_restates_model inv f x hb]
     cases hpol : f.policy inv with
     | throw => simp [strictifyParser_throw_bad _ _ hp]
     | preserve => simp [strictifyParser_preserve_bad _ _ hp]
@@ -912,9 +913,10 @@ theorem parseValueAbs_ok (inv : Policy) (f : Field κ α) (x y : α) (h : f.pars
   simp [parseValueAbs, h]
 
 omit [DecidableEq κ] in
-/-- an offending value on the loop path: reported as not given (`exclude`, optional field — the default,
-if any, is the loop's business), handed back unchanged (`preserve`), or an error. -/
-theorem C11_field_abs_offending_cases (inv : Policy) (f : Field κ α) (x : α) (hbad : Offending f.parse x = true) :
+/-- unfolding lemma (the body of `parseValueAbs` for an offending value; restates the model): reported as not
+given (`exclude`, optional field — the default, if any, is the loop's business), handed back unchanged
+(`preserve`), or an error. -/
+theorem C11_field_abs_cases_restates_model (inv : Policy) (f : Field κ α) (x : α) (hbad : Offending f.parse x = true) :
     parseValueAbs inv f x =
       match f.policy inv with
       | .exclude => if f.required then .raise else .unprovided
@@ -948,7 +950,7 @@ theorem parseValueAbs_strictified_kept (inv : Policy) (f : Field κ α) (x : α)
   | some y => simp [strictifyParser_ok _ _ _ _ hp, parseValueAbs, hp]
   | none =>
     have hb : Offending f.parse x = true := by simp [Offending, hp]
-    rw [C11_field_abs_offending_cases inv f x hb]
+    rw [C11_field_abs_cases_restates_model inv f x hb]
     cases hpol : f.policy inv with
     | throw => simp [strictifyParser_throw_bad _ _ hp]
     | preserve => simp [strictifyParser_preserve_bad _ _ hp]
@@ -1288,11 +1290,12 @@ theorem C11_required_run_never_excluded (inv : Policy) (r : RunOpts μ α) (d : 
   exact ⟨C11_required_never_excluded_value_abs inv _ x hr hbad hpol,
          C11_required_never_excluded_value inv _ x hr hbad hpol⟩
 
-/-- **a parse does not depend on the parses made before it with the same class**: in any sequence of
-parses, each outcome is the outcome of that parse made alone (on a freshly declared class).  In the model
-this holds by construction — `is_required` / `get_default` are functions of the declaration and of the
-running options — and is what the correspondence run checks of the real code, step by step. -/
-theorem C11_sequence_history_independent (decls : List (FieldDecl μ κ α)) (a : Addition α)
+/-- bookkeeping, NOT a property theorem (it is `List.map` indexing and true of any step function): in the
+model a sequence of parses is `steps.map (parseStep decls a)` — `is_required` / `get_default` are functions
+of the declaration and of the running options, the model has no memo a previous parse could leave behind.
+That the REAL code behaves like this stateless model is checked only by the correspondence run (`sequence`
+cases: every step against the model and against a freshly declared class). -/
+theorem C11_sequence_restates_model (decls : List (FieldDecl μ κ α)) (a : Addition α)
     (before after : List (ParseStep μ κ α)) (s : ParseStep μ κ α) :
     (runSteps decls a (before ++ s :: after))[before.length]? = (runSteps decls a [s])[0]? := by
   simp [runSteps]
@@ -1689,6 +1692,387 @@ theorem C11_output_legacy_clean (inv : Policy) (props : List (OutProp κ α)) :
   rw [h]
   cases parseProps inv props <;> rfl
 
+/-! ### review round: constrained containers, sets at `Rule.parse` level, put-back for mapping values,
+discriminated fields -/
+
+section review
+variable {α : Type}
+
+/-- **constrained containers, exclude** (full): also with validators on the container, `exclude` on `v` is
+`throw` on the input without the offenders — the validators see the same list on both sides. -/
+theorem C11_seq_rule_exclude_constrained (W : World α) (k : SeqKind) (p : Parser α) (cons : List α → Bool)
+    (v v' : α) (xs : List α) (h : W.asSeq k v = some xs) (h' : W.asSeq k v' = some (removeOffenders p xs)) :
+    parseSeqRuleC W k .exclude p cons v = parseSeqRuleC W k .throw p cons v' := by
+  simp [parseSeqRuleC, h, h', C11_seq_exclude]
+
+/- full statement (false of the code, see the witness below):
+   parseSeqRuleC W k .throw p cons v' = .ok (W.mkSeq k rs) →
+   parseSeqRuleC W k .preserve p cons v = .ok (W.mkSeq k (putBack p xs rs))                           -/
+/-- **constrained containers, preserve** (partial: outside `KnownDefect.consRejectsPutBack`): when the strict
+parse of the filtered input is accepted by the validators, `preserve` returns that result with the offenders
+put back. -/
+theorem C11_seq_rule_preserve_constrained_partial (W : World α) (k : SeqKind) (p : Parser α) (cons : List α → Bool)
+    (v v' : α) (xs : List α) (h : W.asSeq k v = some xs) (h' : W.asSeq k v' = some (removeOffenders p xs))
+    (hk : KnownDefect.consRejectsPutBack p cons xs = false)
+    (rs : List α) (hs : parseSeqRuleC W k .throw p cons v' = .ok (W.mkSeq k rs))
+    (hrs : parseSeq .throw p (removeOffenders p xs) = .ok rs) :
+    parseSeqRuleC W k .preserve p cons v = .ok (W.mkSeq k (putBack p xs rs)) := by
+  have hrs' : rs = xs.filterMap p := by
+    have := parseSeqFrom_throw_clean p 0 xs
+    simp only [parseSeq] at hrs
+    rw [this] at hrs
+    cases hrs; rfl
+  subst hrs'
+  have hc : cons (xs.filterMap p) = true := by
+    simp only [parseSeqRuleC, h', hrs] at hs
+    by_cases hcc : cons (List.filterMap p xs) = true
+    · exact hcc
+    · simp [hcc] at hs
+  have hc2 : cons (xs.map fun x => (p x).getD x) = true := by
+    simp only [KnownDefect.consRejectsPutBack, hc, Bool.true_and] at hk
+    simpa using hk
+  have hp := parseSeqFrom_preserve p 0 xs
+  simp only [parseSeqRuleC, h, parseSeq, hp, hc2, if_true, putBack_filterMap]
+
+/-- negation witness for the full statement: `max_length = 2`, input `[1, 9, 2]` with 9 offending — strict parse
+of `[1, 2]` is accepted, `preserve` is rejected by the validator (replayed on the real code by the corpus). -/
+theorem C11_preserve_constraint_witness :
+    ∃ (W : World (List Nat)) (p : Parser (List Nat)) (cons : List (List Nat) → Bool),
+      parseSeqRuleC W .list .throw p cons [1, 2] = .ok [1, 2] ∧
+      parseSeqRuleC W .list .preserve p cons [1, 9, 2] = .error .constraint ∧
+      KnownDefect.consRejectsPutBack p cons [[1], [9], [2]] = true :=
+  ⟨{ asSeq := fun _ v => some (v.map fun n => [n]), mkSeq := fun _ xs => xs.flatten,
+     asMap := fun _ => none, mkMap := fun _ => [] },
+   fun v => if v.all (· < 5) then some v else none, fun rs => rs.length ≤ 2, rfl, rfl, rfl⟩
+
+/-- non-vacuity of the partial theorem: its hypotheses hold for an input with a preserved offender -/
+example :
+    let W : World (List Nat) := { asSeq := fun _ v => some (v.map fun n => [n]), mkSeq := fun _ xs => xs.flatten,
+                                  asMap := fun _ => none, mkMap := fun _ => [] }
+    let p : Parser (List Nat) := fun v => if v.all (· < 5) then some v else none
+    let cons : List (List Nat) → Bool := fun rs => rs.length ≥ 2
+    KnownDefect.consRejectsPutBack p cons [[1], [9], [2]] = false ∧
+    parseSeqRuleC W .list .throw p cons [1, 2] = .ok [1, 2] ∧
+    parseSeqRuleC W .list .preserve p cons [1, 9, 2] = .ok [1, 9, 2] := ⟨rfl, rfl, rfl⟩
+
+/-- **sets / frozensets at `Rule.parse` level**: `set(...)` does not depend on the order of its argument
+(`hset`), so whatever order the filtered set `v'` iterates in (`hp`: a permutation of the non-offending items
+of `v`), `exclude` on `v` is `throw` on `v'`. -/
+theorem C11_set_rule_exclude (W : World α) (k : SeqKind) (p : Parser α) (v v' : α) (xs ys : List α)
+    (hset : ∀ as bs : List α, as.Perm bs → W.mkSeq k as = W.mkSeq k bs)
+    (h : W.asSeq k v = some xs) (h' : W.asSeq k v' = some ys) (hp : ys.Perm (removeOffenders p xs)) :
+    parseSeqRule W k .exclude p v = parseSeqRule W k .throw p v' := by
+  obtain ⟨rs, rs', h1, h2, hperm⟩ := C11_set_exclude p xs ys hp
+  simp [parseSeqRule, h, h', h1, h2, map_ok, hset rs rs' hperm]
+
+/-- … and `preserve` on `v` is the set of the strict result of `v'` together with the offenders themselves. -/
+theorem C11_set_rule_preserve (W : World α) (k : SeqKind) (p : Parser α) (v v' : α) (xs ys : List α)
+    (hset : ∀ as bs : List α, as.Perm bs → W.mkSeq k as = W.mkSeq k bs)
+    (h : W.asSeq k v = some xs) (h' : W.asSeq k v' = some ys) (hp : ys.Perm (removeOffenders p xs)) :
+    ∃ rs', parseSeqRule W k .throw p v' = .ok (W.mkSeq k rs') ∧
+           parseSeqRule W k .preserve p v = .ok (W.mkSeq k (rs' ++ xs.filter (fun x => Offending p x))) := by
+  obtain ⟨rs, rs', h1, h2, hperm⟩ := C11_set_preserve p xs ys hp
+  exact ⟨rs', by simp [parseSeqRule, h', h2, map_ok], by simp [parseSeqRule, h, h1, map_ok, hset _ _ hperm]⟩
+
+/-- the hypotheses of the two set theorems are satisfiable by a World whose "set" forgets the order, for a
+filtered set that iterates in ANOTHER order than the original (where `C11_seq_rule_exclude` does not apply) -/
+example :
+    let W : World (List Nat) := { asSeq := fun _ v => some (v.map fun n => [n]), mkSeq := fun _ xs => [xs.length],
+                                  asMap := fun _ => none, mkMap := fun _ => [] }
+    let p : Parser (List Nat) := fun v => if v.all (· < 5) then some v else none
+    (∀ as bs : List (List Nat), as.Perm bs → W.mkSeq .set as = W.mkSeq .set bs) ∧
+    W.asSeq .set [1, 9, 3] = some [[1], [9], [3]] ∧ W.asSeq .set [3, 1] = some [[3], [1]] ∧
+    ([[3], [1]] : List (List Nat)).Perm (removeOffenders p [[1], [9], [3]]) ∧
+    parseSeqRule W .set .exclude p [1, 9, 3] = parseSeqRule W .set .throw p [3, 1] := by
+  refine ⟨fun as bs h => by simp [h.length_eq], rfl, rfl, ?_, rfl⟩
+  show ([[3], [1]] : List (List Nat)).Perm [[1], [3]]
+  exact List.Perm.swap [1] [3] []
+
+/-- the rule-level statements for lists are not vacuous either: a World and values satisfying `h`, `h'` -/
+example :
+    let W : World (List Nat) := { asSeq := fun _ v => some (v.map fun n => [n]), mkSeq := fun _ xs => xs.flatten,
+                                  asMap := fun _ => none, mkMap := fun _ => [] }
+    let p : Parser (List Nat) := fun v => if v.all (· < 5) then some v else none
+    W.asSeq .list [1, 9, 3] = some [[1], [9], [3]] ∧
+    W.asSeq .list [1, 3] = some (removeOffenders p [[1], [9], [3]]) ∧
+    parseSeqRule W .list .exclude p [1, 9, 3] = .ok [1, 3] ∧ parseSeqRule W .list .throw p [1, 3] = .ok [1, 3] :=
+  ⟨rfl, rfl, rfl, rfl⟩
+
+/-! #### mappings: `preserve` for values, literally -/
+
+theorem map_map_comp {ε β γ δ : Type} (f : β → γ) (g : γ → δ) (t : Except ε β) :
+    (t.map f).map g = t.map (g ∘ f) := by
+  cases t <;> rfl
+
+theorem parseMap_orSelf_putBack (kp q : Parser α) (L : List (α × α)) :
+    parseMap .throw .throw kp (some (orSelf q)) L =
+      (parseMap .throw .throw kp (some q) (L.filter fun kv => !valuePreserved kp (some q) kv)).map
+        (putBackVals kp (some q) L) := by
+  induction L with
+  | nil => rfl
+  | cons kv rest ih =>
+    obtain ⟨k, v⟩ := kv
+    rw [List.filter_cons]
+    cases hk : kp k with
+    | none =>
+      have hvp : valuePreserved kp (some q) (k, v) = false := by simp [valuePreserved, Offending, hk]
+      simp [hvp, parseMap, hk, map_error]
+    | some k' =>
+      cases hv : q v with
+      | some v' =>
+        have hvp : valuePreserved kp (some q) (k, v) = false := by simp [valuePreserved, Offending, hk, hv]
+        simp only [hvp, Bool.not_false, if_true, parseMap, hk, hv, orSelf, Option.getD_some, ih, map_map_comp]
+        cases parseMap .throw .throw kp (some q) (rest.filter fun kv => !valuePreserved kp (some q) kv) with
+        | error e => rfl
+        | ok rs => simp [Except.map, putBackVals, hvp]
+      | none =>
+        have hvp : valuePreserved kp (some q) (k, v) = true := by simp [valuePreserved, Offending, hk, hv]
+        simp only [hvp, Bool.not_true, Bool.false_eq_true, if_false, parseMap, hk, hv, orSelf, Option.getD_none, ih,
+          map_map_comp]
+        cases parseMap .throw .throw kp (some q) (rest.filter fun kv => !valuePreserved kp (some q) kv) with
+        | error e => rfl
+        | ok rs => simp [Except.map, putBackVals, hvp, hk]
+
+/-- **mappings, `invalid_values='preserve'`, literally** (keys under `throw` or `exclude`): the result is the
+strict (`invalid_values='throw'`) result of the mapping without the entries whose value is offending, with
+those entries put back — converted key, value unchanged — at their positions; and it fails exactly when that
+strict parse fails, with the same error. -/
+theorem C11_map_preserve_values (pk : Policy) (kp q : Parser α) (kvs : List (α × α)) (hk : pk ≠ .preserve) :
+    parseMap pk .preserve kp (some q) kvs =
+      (parseMap pk .throw kp (some q) (kvs.filter fun kv => !valuePreserved kp (some q) kv)).map
+        (putBackVals kp (some q) (kvs.filter fun kv => !(pk == .exclude && Offending kp kv.1))) := by
+  have e1 : ∀ kv : α × α, mapExcluded pk .preserve kp (some q) kv = (pk == .exclude && Offending kp kv.1) := by
+    intro kv; cases pk <;> simp [mapExcluded]
+  have e2 : ∀ kv : α × α, mapExcluded pk .throw kp (some q) kv = (pk == .exclude && Offending kp kv.1) := by
+    intro kv; cases pk <;> simp [mapExcluded]
+  rw [C11_map_general pk .preserve, C11_map_general pk .throw, strictifyParser_not_preserve pk kp hk]
+  simp only [Option.map_some, e1, e2]
+  have hs1 : strictifyParser .preserve q = orSelf q := rfl
+  have hs2 : strictifyParser .throw q = q := rfl
+  rw [hs1, hs2, parseMap_orSelf_putBack, List.filter_filter, List.filter_filter]
+  congr 2
+  apply List.filter_congr
+  intro kv _
+  exact Bool.and_comm _ _
+
+/-! #### discriminated fields -/
+
+/-- a value whose discriminator selects no branch (or that is no mapping) is an offending value of the field —
+so every field theorem above (`exclude` = absent, `preserve` = handed back, `throw` = error; required never
+excluded; the whole-class theorems) speaks about discriminated fields too. -/
+theorem C11_disc_mismatch_offending {τ : Type} (toDict : α → Option α) (tag : α → Option τ)
+    (branch : τ → Option (Parser α)) (x : α)
+    (h : toDict x = none ∨ (∃ d, toDict x = some d ∧ (tag d = none ∨ ∃ t, tag d = some t ∧ branch t = none))) :
+    Offending (discParser toDict tag branch) x = true := by
+  rcases h with h | ⟨d, hd, h | ⟨t, ht, hb⟩⟩
+  · simp [Offending, discParser, h]
+  · simp [Offending, discParser, hd, h]
+  · simp [Offending, discParser, hd, ht, hb]
+
+/-- before `fixes/C11-discriminator-policy.patch` such a value raised under `exclude` and `preserve` alike
+although the field was optional with a default — and the same input without it parses: negation witness,
+replayed on the real code by the corpus. -/
+theorem C11_disc_legacy_bypasses_policy_witness :
+    ∃ (f : Field Nat Nat) (toDict : Nat → Option Nat) (tag : Nat → Option Nat) (branch : Nat → Option (Parser Nat)),
+      f.required = false ∧ f.default = some 0 ∧
+      parseValueDiscLegacy .exclude f toDict tag branch 7 = .raise ∧
+      parseValueDiscLegacy .preserve f toDict tag branch 7 = .raise ∧
+      parseValueAbs .exclude { f with parse := discParser toDict tag branch } 7 = .unprovided ∧
+      parseValue .preserve { f with parse := discParser toDict tag branch } 7 = .value 7 :=
+  ⟨{ name := 0, required := false, default := some 0, onError := none, parse := fun _ => none },
+   some, fun d => some (d % 10), fun t => if t = 1 then some (fun d => some d) else none, rfl, rfl, rfl, rfl, rfl, rfl⟩
+
+end review
+
+/-! #### data-class fields: `preserve`, literally (results as finite maps: a field's position is its name) -/
+
+section putbackfields
+variable {κ α : Type} [DecidableEq κ]
+
+/-- the field reads `preserve` as `throw` (same converter, same everything else) -/
+def Field.unpreserved (inv : Policy) (f : Field κ α) : Field κ α :=
+  { f with onError := some (f.policy inv).strictified }
+
+/-- the entry is a field value that a `preserve` policy hands back -/
+def fieldPreserved (inv : Policy) (fields : List (Field κ α)) (kv : κ × α) : Bool :=
+  match findField kv.1 fields with
+  | some f => Offending f.parse kv.2 && f.policy inv == .preserve
+  | none => false
+
+theorem findField_name {k : κ} {fields : List (Field κ α)} {f : Field κ α} (h : findField k fields = some f) :
+    f.name = k := by
+  induction fields with
+  | nil => simp [findField] at h
+  | cons g gs ih =>
+    by_cases hg : g.name = k
+    · simp [findField, hg] at h; subst h; exact hg
+    · simp [findField, hg] at h; exact ih h
+
+theorem ffFields_keys (fix : Bool) (inv : Policy) (fs : List (Field κ α)) (data : List (κ × α)) (acc : Acc κ α)
+    (h : ffFieldsG fix inv fs data = .ok acc) (k : κ) (hk : k ∉ fs.map (·.name)) : lookup k acc.res = none := by
+  induction fs generalizing acc with
+  | nil => simp [ffFieldsG] at h; subst h; rfl
+  | cons f fs ih =>
+    simp at hk
+    have hne : ¬ f.name = k := fun e => hk.1 e.symm
+    have hk' : k ∉ fs.map (·.name) := by simpa using hk.2
+    simp only [ffFieldsG] at h
+    repeat' split at h
+    all_goals first
+      | (simp at h; done)
+      | (exact ih acc h hk')
+      | (obtain ⟨a0, h0, hg⟩ := map_ok_inv _ _ _ h
+         subst hg
+         have := ih a0 h0 hk'
+         first
+           | (simp only [Acc.absent]; split <;> simp [lookup, hne, this])
+           | (simp [Acc.accept, lookup, hne, this]))
+
+/-- **fields, `preserve`, literally** (field-first; the fields part): if the parse that reads every `preserve`
+as `throw` accepts the data without the preserved offenders, then the parse under the declared policies
+succeeds and, name by name, returns the preserved offender's own value for a preserved field and the strict
+result for every other name. -/
+theorem C11_fields_preserve_putback (inv : Policy) (fields fs : List (Field κ α)) (data : List (κ × α))
+    (hdata : (data.map (·.1)).Nodup) (hfs : (fs.map (·.name)).Nodup)
+    (hsub : ∀ f ∈ fs, findField f.name fields = some f) (accR : Acc κ α)
+    (hR : ffFields inv.strictified (fs.map (Field.unpreserved inv))
+            (data.filter fun kv => !fieldPreserved inv fields kv) = .ok accR) :
+    ∃ accL, ffFields inv fs data = .ok accL ∧
+      ∀ k, lookup k accL.res =
+        (match lookup k data with
+          | some v => if fieldPreserved inv fields (k, v) && decide (k ∈ fs.map (·.name)) then some v
+                      else lookup k accR.res
+          | none => lookup k accR.res) := by
+  unfold ffFields at hR ⊢
+  induction fs generalizing accR with
+  | nil =>
+    simp [ffFieldsG] at hR
+    subst hR
+    exact ⟨Acc.empty, rfl, fun k => by cases lookup k data <;> simp [Acc.empty, lookup]⟩
+  | cons f fs ih =>
+    simp at hfs
+    have hf := hsub f (by simp)
+    have hsub' : ∀ g ∈ fs, findField g.name fields = some g := fun g hg => hsub g (by simp [hg])
+    have hname : (f.unpreserved inv).name = f.name := rfl
+    have hreq : (f.unpreserved inv).required = f.required := rfl
+    have habs : Acc.absent (f.unpreserved inv) = Acc.absent f := rfl
+    have hacc : ∀ y, Acc.accept (f.unpreserved inv) y = Acc.accept f y := fun _ => rfl
+    have hnotin : f.name ∉ fs.map (·.name) := by simpa using hfs.1
+    simp only [List.map_cons, ffFieldsG, hname] at hR ⊢
+    -- the tail, once its strict run is known to succeed
+    have tail : ∀ accR0, ffFieldsG true inv.strictified (fs.map (Field.unpreserved inv))
+          (data.filter fun kv => !fieldPreserved inv fields kv) = .ok accR0 →
+        ∃ accL0, ffFieldsG true inv fs data = .ok accL0 ∧ lookup f.name accL0.res = none ∧
+          lookup f.name accR0.res = none ∧
+          ∀ k, lookup k accL0.res =
+            (match lookup k data with
+              | some v => if fieldPreserved inv fields (k, v) && decide (k ∈ fs.map (·.name)) then some v
+                          else lookup k accR0.res
+              | none => lookup k accR0.res) := by
+      intro accR0 h0
+      obtain ⟨accL0, hL0, hk0⟩ := ih hfs.2 hsub' accR0 h0
+      refine ⟨accL0, hL0, ffFields_keys true inv fs data accL0 hL0 f.name hnotin, ?_, hk0⟩
+      have : f.name ∉ (fs.map (Field.unpreserved inv)).map (·.name) := by
+        simpa [List.map_map, Function.comp_def, Field.unpreserved] using hnotin
+      exact ffFields_keys true _ _ _ accR0 h0 f.name this
+    cases hl : lookup f.name data with
+    | none =>
+      have hlF := lookup_filter_none (fun kv => !fieldPreserved inv fields kv) f.name data hl
+      simp only [hlF, hreq] at hR
+      cases hr : f.required with
+      | true => simp [hr] at hR
+      | false =>
+        simp only [hr, Bool.false_eq_true, if_false, habs] at hR ⊢
+        obtain ⟨accR0, h0, hg⟩ := map_ok_inv _ _ _ hR
+        obtain ⟨accL0, hL0, hn1, hn2, hk0⟩ := tail accR0 h0
+        refine ⟨Acc.absent f accL0, by simp [hL0, Except.map], ?_⟩
+        intro k
+        subst hg
+        by_cases hk : f.name = k
+        · subst hk
+          simp only [hl, Acc.absent]
+          cases f.default <;> simp [lookup, hn1, hn2]
+        · have := hk0 k
+          have hk' : ¬ k = f.name := fun e => hk e.symm
+          simp only [Acc.absent]
+          cases f.default <;> cases hd : lookup k data <;> simp_all [lookup]
+    | some x =>
+      cases hb : fieldPreserved inv fields (f.name, x) with
+      | true =>
+        -- preserved offender: removed on the right (⇒ treated as absent there), handed back on the left
+        have hoff : f.parse x = none ∧ f.policy inv = .preserve := by
+          simpa [fieldPreserved, hf, Offending] using hb
+        have hlF := lookup_filter_drop (fun kv => !fieldPreserved inv fields kv) f.name x data hdata hl (by simp [hb])
+        simp only [hlF, hreq] at hR
+        cases hr : f.required with
+        | true => simp [hr] at hR
+        | false =>
+          simp only [hr, Bool.false_eq_true, if_false, habs] at hR
+          obtain ⟨accR0, h0, hg⟩ := map_ok_inv _ _ _ hR
+          obtain ⟨accL0, hL0, hn1, hn2, hk0⟩ := tail accR0 h0
+          have hstep : fieldStep true inv f x = .value x := by
+            simp [fieldStep, parseValueAbs, hoff.1, hoff.2]
+          refine ⟨Acc.accept f x accL0, by simp [hstep, hL0, Except.map], ?_⟩
+          intro k
+          subst hg
+          by_cases hk : f.name = k
+          · subst hk
+            simp [hl, hb, Acc.accept, lookup]
+          · have := hk0 k
+            have hk' : ¬ k = f.name := fun e => hk e.symm
+            simp only [Acc.absent, Acc.accept]
+            cases f.default <;> cases hd : lookup k data <;> simp_all [lookup]
+      | false =>
+        have hlF := lookup_filter_keep (fun kv => !fieldPreserved inv fields kv) f.name x data hl (by simp [hb])
+        -- same step on both sides
+        have hstep : fieldStep true inv.strictified (f.unpreserved inv) x = fieldStep true inv f x := by
+          simp only [fieldStep, if_true, parseValueAbs]
+          have hp : (f.unpreserved inv).parse x = f.parse x := rfl
+          rw [hp]
+          cases hpx : f.parse x with
+          | some y => rfl
+          | none =>
+            have hnp : f.policy inv ≠ .preserve := by
+              intro e; simp [fieldPreserved, hf, Offending, hpx, e] at hb
+            have hpol : (f.unpreserved inv).policy inv.strictified = f.policy inv := by
+              simp only [Field.policy, Field.unpreserved, Option.getD_some]
+              cases hq : f.onError.getD inv <;> simp_all [Policy.strictified, Field.policy]
+            simp only [hpol, hreq]
+        simp only [hlF, hstep, habs, hacc] at hR
+        cases hs : fieldStep true inv f x with
+        | raise => simp [hs] at hR
+        | unprovided =>
+          simp only [hs, if_true] at hR ⊢
+          obtain ⟨accR0, h0, hg⟩ := map_ok_inv _ _ _ hR
+          obtain ⟨accL0, hL0, hn1, hn2, hk0⟩ := tail accR0 h0
+          refine ⟨Acc.absent f accL0, by simp [hL0, Except.map], ?_⟩
+          intro k
+          subst hg
+          by_cases hk : f.name = k
+          · subst hk
+            simp only [hl, hb, Acc.absent]
+            cases f.default <;> simp [lookup, hn1, hn2]
+          · have := hk0 k
+            have hk' : ¬ k = f.name := fun e => hk e.symm
+            simp only [Acc.absent]
+            cases f.default <;> cases hd : lookup k data <;> simp_all [lookup]
+        | value y =>
+          simp only [hs] at hR ⊢
+          obtain ⟨accR0, h0, hg⟩ := map_ok_inv _ _ _ hR
+          obtain ⟨accL0, hL0, hn1, hn2, hk0⟩ := tail accR0 h0
+          refine ⟨Acc.accept f y accL0, by simp [hL0, Except.map], ?_⟩
+          intro k
+          subst hg
+          by_cases hk : f.name = k
+          · subst hk
+            simp [hl, hb, Acc.accept, lookup]
+          · have := hk0 k
+            have hk' : ¬ k = f.name := fun e => hk e.symm
+            simp only [Acc.accept]
+            cases hd : lookup k data <;> simp_all [lookup]
+
+end putbackfields
+
 /-! ### non-vacuity of the hypotheses -/
 
 def exField : Field Nat Nat :=
@@ -1731,5 +2115,85 @@ example :
                                   asMap := fun _ => none, mkMap := fun _ => [] }
     parseTy W Opts.strict (.seq .list (.leaf fun v => if v.all (· < 5) then some v else none)) [1, 2] = some [1, 2] := by
   rfl
+
+/-- `C11_required_never_excluded_df`: its hypotheses (`hmem`, `hf`, …) hold for a datum that then does fail -/
+example : ((1 : Nat), (9 : Nat)) ∈ [((1 : Nat), (9 : Nat))] ∧ findField 1 [exField, exReq] = some exReq ∧
+    exReq.required = true ∧ Offending exReq.parse 9 = true ∧ exReq.policy .exclude = .exclude ∧
+    parseDataDF .exclude [exField, exReq] .ignore [(1, 9)] = .error (.parse 1) :=
+  ⟨by simp, rfl, rfl, rfl, rfl, rfl⟩
+
+def exModeDecl : FieldDecl Char Nat Nat :=
+  { name := 1, req := .modes ['w'], default := some 7, onError := none, parse := fun n => if n < 5 then some n else none }
+
+/-- `C11_required_in_mode_never_excluded(_data)`: a `required='w'` field WITH a default, mode `'w'`, offending
+value, `exclude`: all hypotheses hold, both strategies fail; in mode `'r'` the same value is excluded and the
+default applies -/
+example : exModeDecl ∈ [exModeDecl] ∧ (exModeDecl.name, 9) ∈ [((1 : Nat), (9 : Nat))] ∧
+    lookup exModeDecl.name [((1 : Nat), (9 : Nat))] = some 9 ∧
+    findField exModeDecl.name ([exModeDecl].map (FieldDecl.resolve (some 'w'))) = some (exModeDecl.resolve (some 'w')) ∧
+    exModeDecl.req.holds (some 'w') = true ∧ Offending exModeDecl.parse 9 = true ∧
+    (exModeDecl.resolve (some 'w')).policy .exclude = .exclude ∧
+    parseDataFF .exclude ([exModeDecl].map (FieldDecl.resolve (some 'w'))) .ignore [(1, 9)] = .error (.parse 1) ∧
+    parseDataDF .exclude ([exModeDecl].map (FieldDecl.resolve (some 'w'))) .ignore [(1, 9)] = .error (.parse 1) ∧
+    parseDataDF .exclude ([exModeDecl].map (FieldDecl.resolve (some 'r'))) .ignore [(1, 9)] = .ok [(1, 7)] :=
+  ⟨by simp, by simp [exModeDecl], rfl, rfl, rfl, rfl, rfl, rfl, rfl, rfl⟩
+
+/-- `C11_ignore_required_excludes`: a field that is required (`required=True`) is excluded, not an error, in a
+run with `ignore_required`; the same value raises in a regular run -/
+example :
+    let d : FieldDecl Char Nat Nat := { name := 1, req := .yes, default := none, onError := none,
+                                        parse := fun n => if n < 5 then some n else none }
+    let r : RunOpts Char Nat := { ignoreRequired := true }
+    r.ignoresRequired = true ∧ Offending d.parse 9 = true ∧ (d.resolveR r).policy .exclude = .exclude ∧
+    parseValueAbs .exclude (d.resolveR r) 9 = .unprovided ∧
+    parseValueAbs .exclude (d.resolveR {}) 9 = .raise := ⟨rfl, rfl, rfl, rfl, rfl⟩
+
+/-- `C11_posparams_pointwise`: `hps` holds for parameters with defaults, with an excluded and a preserved argument -/
+example :
+    let ps : List (Field Nat Nat) := [exField, { exField with name := 5, default := some 8 }]
+    (∀ p ∈ ps, p.required = false ∧ p.onError = none ∧ ∃ d, p.default = some d) ∧
+    parsePosParams .exclude ps 0 [9, 3, 4] = .ok ([7, 3], [4]) ∧
+    parsePosParams .preserve ps 0 [9, 3, 4] = .ok ([9, 3], [4]) := by
+  refine ⟨?_, rfl, rfl⟩
+  intro p hp
+  simp at hp
+  rcases hp with rfl | rfl <;> exact ⟨rfl, rfl, _, rfl⟩
+
+def exNestedW : World Nat :=
+  { asSeq := fun _ _ => none, mkSeq := fun _ _ => 0,
+    asMap := fun v => if v = 100 then some [(0, 3), (1, 9)] else if v = 101 then some [(0, 3)] else none,
+    mkMap := fun kvs => kvs.foldl (fun s kv => s + kv.1 * 10 + kv.2) 0 }
+
+def exNestedT : DTy Nat := .data .exclude false .ignore
+  [({ name := 0, required := true, default := none, onError := none },
+      .leaf fun n => if n < 5 then some n else none),
+   ({ name := 1, required := false, default := some 7, onError := none },
+      .leaf fun n => if n < 5 then some n else none)]
+
+/-- `C11_nested_data_clean_input` (after the reviewer's B.lean): its hypothesis holds for a class node on clean
+input (strict = declared policies), and the theorem is silent — as it must be — on dirty input, where the
+strict reading fails and `exclude` substitutes the default -/
+example : DTy.parser exNestedW true exNestedT 101 = some 20 ∧ DTy.parser exNestedW false exNestedT 101 = some 20 ∧
+    DTy.parser exNestedW true exNestedT 100 = none ∧ DTy.parser exNestedW false exNestedT 100 = some 20 :=
+  ⟨rfl, rfl, rfl, rfl⟩
+
+/-- `C11_fields_preserve_putback`: the strict run of the data without the preserved offender succeeds, and the
+declared-policy run hands the offender back under its name -/
+example :
+    let fp : Field Nat Nat := { exField with onError := some .preserve }
+    fieldPreserved .throw [fp, exReq] (0, 9) = true ∧
+    ffFields Policy.throw.strictified ([fp, exReq].map (Field.unpreserved .throw))
+        ([(0, 9), (1, 3)].filter fun kv => !fieldPreserved .throw [fp, exReq] kv)
+      = .ok ⟨[(0, 7), (1, 3)], [0], []⟩ ∧
+    ffFields .throw [fp, exReq] [(0, 9), (1, 3)] = .ok ⟨[(0, 9), (1, 3)], [], []⟩ := ⟨rfl, rfl, rfl⟩
+
+/-- `C11_map_preserve_values`: a mapping with an excluded key, a preserved value and a clean entry -/
+example :
+    let kp : Parser Nat := fun n => if n < 5 then some (n + 10) else none
+    let q : Parser Nat := fun n => if n < 5 then some (n + 20) else none
+    parseMap .exclude .preserve kp (some q) [(9, 1), (1, 9), (2, 2)] = .ok [(11, 9), (12, 22)] ∧
+    parseMap .exclude .throw kp (some q) ([(9, 1), (1, 9), (2, 2)].filter fun kv => !valuePreserved kp (some q) kv)
+      = .ok [(12, 22)] ∧
+    putBackVals kp (some q) [(1, 9), (2, 2)] [(12, 22)] = [(11, 9), (12, 22)] := ⟨rfl, rfl, rfl⟩
 
 end Utv.C11
